@@ -14,6 +14,7 @@ def run(rep):
     from . import syntactic
     syntactic.no_direct_cell_writes(rep)
     syntactic.template_discipline(rep)
+    syntactic.caught_exceptions_do_not_escape(rep)
     q = rep.tier == 'quick'
     if os.path.exists(os.path.join(fw.VERIF, 'standin', 's_c03.py')):
         fw.standin(rep, 's_c03.py', ['run', rep.seed, 250 if q else 4000],
